@@ -218,6 +218,7 @@ type hist struct {
 	shadow         *canvas.Path
 	pstate         int // 0 need MoveTo, 1 after MoveTo, 2 has segments, 3 after Close
 	sx, sy, lx, ly float64
+	px, py         float64 // start of the last segment
 	depth          int
 	maxDepth       int
 	zs             map[int]bool
@@ -537,23 +538,30 @@ func (h *hist) pathCmd() {
 		h.shadow.MoveTo(x, y)
 		h.sx, h.sy, h.lx, h.ly = x, y, x, y
 		h.pstate = 1
-	case h.pstate == 1 || h.r.P(2, 3):
-		x, y := h.newPoint()
-		if h.r.P(1, 2) { // axis-aligned segment: exact length
-			if h.r.Bool() {
-				x = h.lx
-			} else {
-				y = h.ly
-			}
-			if (x == h.lx && y == h.ly) || (x == h.sx && y == h.sy) {
-				x, y = h.lx+1.5, h.ly
-				if x == h.sx && y == h.sy {
-					x += 1
+	case h.pstate == 1 || h.r.P(2, 3) || (h.lx-h.px)*(h.sy-h.ly)-(h.ly-h.py)*(h.sx-h.lx) == 0: // (Close merges a parallel last segment too)
+		var x, y float64
+		for try := 0; ; try++ {
+			x, y = h.newPoint()
+			if h.r.P(1, 2) && try < 20 { // axis-aligned segment: exact length
+				if h.r.Bool() {
+					x = h.lx
+				} else {
+					y = h.ly
 				}
 			}
+			if (x == h.lx && y == h.ly) || (x == h.sx && y == h.sy) {
+				continue
+			}
+			// Path.LineTo merges a segment that is parallel to the previous one (path builder, property C10): the
+			// model appends commands verbatim, so consecutive parallel segments are not generated
+			if h.pstate == 2 && (h.lx-h.px)*(y-h.ly)-(h.ly-h.py)*(x-h.lx) == 0 {
+				continue
+			}
+			break
 		}
 		h.ctxOp("PathCmd "+tok(2, x, y), fmt.Sprintf("LineTo(%g,%g)", x, y), func(c *canvas.Context) { c.LineTo(x, y) })
 		h.shadow.LineTo(x, y)
+		h.px, h.py = h.lx, h.ly
 		h.lx, h.ly = x, y
 		h.pstate = 2
 	default:
